@@ -1,13 +1,14 @@
 //! C19 (support run): one instance shared by many threads; every call must return what it would
 //! return alone, and everything must finish under a watchdog.
 
+use std::sync::atomic::{AtomicBool, Ordering};
 use std::sync::{mpsc, Arc};
 use std::time::Duration;
 
 use cosmian_cover_crypt::{
     api::Covercrypt, traits::{KemAc, PkeAc}, AccessPolicy, EncryptedHeader, EncryptionHint, MasterPublicKey, MasterSecretKey, QualifiedAttribute,
 };
-use cosmian_crypto_core::{bytes_ser_de::Serializable, Aes256Gcm};
+use cosmian_crypto_core::{bytes_ser_de::Serializable, reexport::rand_core::RngCore, Aes256Gcm};
 
 pub fn run(tier: &str, seed: u64, out: &str) {
     let t0 = std::time::Instant::now();
@@ -33,6 +34,30 @@ pub fn run(tier: &str, seed: u64, out: &str) {
         let (tx, rx) = mpsc::channel::<(usize, usize, Vec<String>, Vec<Vec<u8>>)>();
         let mut fresh_all: std::collections::HashSet<Vec<u8>> = Default::default();
         let mut fresh_count = 0usize;
+        // two more threads use the public accessor `Covercrypt::rng()` directly, as `EncryptedHeader::generate` does for its
+        // nonce: very short critical sections, taken as fast as possible - another contention pattern on the same mutex; what
+        // they draw must be as fresh as everything else
+        let stop = Arc::new(AtomicBool::new(false));
+        let mut drawers = vec![];
+        for _ in 0..2 {
+            let (cc, stop) = (cc.clone(), stop.clone());
+            drawers.push(std::thread::spawn(move || {
+                let mut drawn: Vec<Vec<u8>> = vec![];
+                let mut k = 0usize;
+                while !stop.load(Ordering::Relaxed) {
+                    let mut b = [0u8; 24];
+                    cc.rng().fill_bytes(&mut b);
+                    if k % 64 == 0 && drawn.len() < 4000 {
+                        drawn.push(b.to_vec());
+                    }
+                    k += 1;
+                    if k % 16 == 0 {
+                        std::thread::yield_now();
+                    }
+                }
+                drawn
+            }));
+        }
         for t in 0..threads {
             let cc = cc.clone();
             let (mskb, mpkb) = (mskb.clone(), mpkb.clone());
@@ -100,7 +125,7 @@ pub fn run(tier: &str, seed: u64, out: &str) {
         }
         drop(tx);
         let mut done = 0;
-        let deadline = Duration::from_secs(if tier == "thorough" { 900 } else { 180 });
+        let deadline = Duration::from_secs(if tier == "thorough" { 900 } else { 120 });
         let start = std::time::Instant::now();
         while done < threads {
             match rx.recv_timeout(deadline.saturating_sub(start.elapsed())) {
@@ -125,8 +150,34 @@ pub fn run(tier: &str, seed: u64, out: &str) {
                 }
             }
         }
+        stop.store(true, Ordering::Relaxed);
+        for d in drawers {
+            // a drawer that never comes back is blocked on the generator's mutex
+            let (dtx, drx) = mpsc::channel();
+            std::thread::spawn(move || { let _ = dtx.send(d.join()); });
+            match drx.recv_timeout(Duration::from_secs(30)) {
+                Ok(Ok(drawn)) => {
+                    for v in drawn {
+                        if !fresh_all.insert(v.clone()) && fails.len() < 20 {
+                            fails.push(serde_json::json!({"kind": "impl-oracle", "oracle": "concurrent-freshness", "tags": ["repeated-across-threads"],
+                                "what": format!("bytes drawn through Covercrypt::rng() were produced twice on one shared instance with {threads} threads: {}", crate::util::hex(&v)), "lines": [], "case": format!("{threads} threads")}));
+                        }
+                    }
+                }
+                _ => {
+                    if !fails.iter().any(|f| f["oracle"] == "concurrent-progress") {
+                        fails.push(serde_json::json!({"kind": "impl-oracle", "oracle": "concurrent-progress", "tags": ["blocked"],
+                            "what": format!("a thread drawing through Covercrypt::rng() did not come back ({threads} worker threads): the generator's mutex is never handed to it, or it died"), "lines": [], "case": format!("{threads} threads")}));
+                    }
+                }
+            }
+        }
         let _ = fresh_count;
         configs.push(threads);
+        // blocked threads keep the instance busy for ever: one report is enough
+        if fails.iter().any(|f| f["oracle"] == "concurrent-progress") {
+            break;
+        }
     }
     let j = serde_json::json!({
         "property": "C19", "tier": tier, "seed": seed, "config": crate::util::CFG, "cases": configs.len(), "lines": total_calls,
@@ -134,7 +185,7 @@ pub fn run(tier: &str, seed: u64, out: &str) {
         "soft_kind_mismatch": 0, "matrix_cells": 0, "matrix_open": 0,
         "samples": [{"threads": configs, "iterations_per_configuration": iters}],
         "mismatches": [],
-        "extra": {"rule": format!("one shared Covercrypt instance used by 2, 4, 8 and 16 threads ({iters} iterations per configuration) for encapsulation, decapsulation (authorised and unauthorised), PKE encryption / decryption, header generation / decryption, key generation, rekey, refresh, prune on thread-local key objects; every result is compared with what the call returns alone (round trips, None for unauthorised); a watchdog bounds the whole run; support for the part of C19 the model cannot exhibit; distinct = API calls made (each with fresh randomness)"),
+        "extra": {"rule": format!("one shared Covercrypt instance used by 2, 4, 8 and 16 threads ({iters} iterations per configuration) for encapsulation, decapsulation (authorised and unauthorised), PKE encryption / decryption, header generation / decryption, key generation, rekey, refresh, prune on thread-local key objects, while two more threads draw through the public accessor Covercrypt::rng() in very short critical sections; every result is compared with what the call returns alone (round trips, None for unauthorised); a watchdog bounds the whole run; support for the part of C19 the model cannot exhibit; distinct = API calls made (each with fresh randomness)"),
             "exhaustive": false, "per_line": true, "oracle_failures": fails, "oracle_checked": total_calls, "campaign": "C19", "wall_s": t0.elapsed().as_secs_f64()},
     });
     std::fs::write(out, serde_json::to_string_pretty(&j).unwrap()).unwrap();
